@@ -125,6 +125,25 @@ func main() {
 		cmdVerify(os.Args[2:])
 	case "check":
 		cmdCheck(os.Args[2:])
+	case "types":
+		e, err := loadEngine("/repo", "/verif/theory")
+		if err != nil {
+			fmt.Fprintln(os.Stderr, err)
+			os.Exit(2)
+		}
+		for _, n := range os.Args[2:] {
+			t := e.typeByName[n]
+			if t == nil {
+				fmt.Println(n, ": unknown")
+				continue
+			}
+			fmt.Println(n, "->", e.sorts.sortOf(t))
+			if st, ok := t.Underlying().(*types.Struct); ok {
+				for i := 0; i < st.NumFields(); i++ {
+					fmt.Printf("    %s %s -> %s\n", st.Field(i).Name(), typeName(st.Field(i).Type()), e.sorts.sortOf(st.Field(i).Type()))
+				}
+			}
+		}
 	default:
 		fmt.Fprintln(os.Stderr, "unknown command", os.Args[1])
 		os.Exit(2)
